@@ -277,6 +277,43 @@ func Run(r *fw.Run) {
 		}
 		r.Merge(l)
 	}
+	// dense length sweep: lower-case, upper-case and alternating fills of every length 0..enum.DenseMax
+	{
+		var mu sync.Mutex
+		dslots := []struct {
+			pre, post string
+			c         byte
+		}{{"example.com/", "", 'a'}, {"example.com/", "/x", 'Z'}, {"example.com/a", "Q", 'b'}, {"v1.0.0-", "", 'R'}, {"v1.0.0-a", "B", 'c'}, {"!", "", 'a'}, {"example.com/!a", "!b", 'c'}}
+		r.Bounds["dense_length_sweep"] = fmt.Sprintf("%d slots x every fill length 0..%d x 4 functions", len(dslots), enum.DenseMax)
+		fw.Parallel(len(dslots), func(i int) {
+			l := fw.NewLocal()
+			defer r.Merge(l)
+			sl := dslots[i]
+			enum.EachLength(sl.c, enum.DenseMax, func(f string) {
+				s := sl.pre + f + sl.post
+				l.States++
+				l.Transitions++
+				for _, kind := range []string{"path", "version", "unpath", "unversion"} {
+					l.Execs++
+					var msg string
+					var ok bool
+					if kind == "path" || kind == "version" {
+						msg, ok = forward(kind, s)
+					} else {
+						msg, ok = backward(kind, s)
+					}
+					if ok {
+						l.Nontrivial++
+					}
+					if msg != "" {
+						mu.Lock()
+						r.Violation(fmt.Sprintf("dense:%s:%d:%d", kind, i, len(f)), msg, caseT{kind, strconv.QuoteToASCII(s)})
+						mu.Unlock()
+					}
+				}
+			})
+		})
+	}
 	// call histories: every ordered pair of related inputs, back to back in one goroutine
 	{
 		l := fw.NewLocal()
